@@ -117,7 +117,22 @@ func run(args []string, real bool) int {
 		if i%5 == 0 {
 			maxIn = 70 // wide arguments (> 64 bits)
 		}
-		c := hxlib.GenCircuit(r, hxlib.GenOpts{MaxGates: 80, MaxIn: maxIn, Mix: mixes[i%len(mixes)]})
+		wideEval := real && i%6 == 1
+		gopts := hxlib.GenOpts{MaxGates: 80, MaxIn: maxIn, Mix: mixes[i%len(mixes)]}
+		if wideEval {
+			// evaluator argument beyond one OT-extension chunk (512 rows),
+			// mostly not byte aligned
+			gopts.N0 = 1 + r.Intn(40)
+			gopts.N1 = 513 + r.Intn(900)
+			if gopts.N1%8 == 0 {
+				gopts.N1 += 1 + r.Intn(7)
+			}
+		}
+		c := hxlib.GenCircuit(r, gopts)
+		if wideEval {
+			// every input bit must influence the result
+			c = hxlib.GenParityCircuit(r, gopts.N0+8, gopts.N1)
+		}
 		widths := splitOutputs(r, c)
 		n0 := int(c.Inputs[0].Type.Bits)
 		n1 := int(c.Inputs[1].Type.Bits)
@@ -130,10 +145,27 @@ func run(args []string, real bool) int {
 		for j := range y {
 			y[j] = r.Bool()
 		}
+		if wideEval {
+			// structured choice patterns: low part set, tail clear (and the
+			// reverse), besides random
+			switch r.Intn(3) {
+			case 0:
+				for j := range y {
+					y[j] = j < 512
+				}
+			case 1:
+				for j := range y {
+					y[j] = j >= 512
+				}
+			}
+		}
 		tape := r.Bytes(32 + 16*(1+nin))
 		otName := "ideal"
 		if real {
 			otName = ots[i%len(ots)]
+			if wideEval {
+				otName = []string{"cot", "cotm", "co"}[(i/6)%3]
+			}
 			if otName == "rsa" {
 				if rsaLeft == 0 {
 					otName = "co"
@@ -197,6 +229,12 @@ func run(args []string, real bool) int {
 		o.Count(fmt.Sprintf("outputs_%d", minI(len(widths), 4)))
 		if n0 > 64 || n1 > 64 {
 			o.Count("wide_input")
+		}
+		if n1 > 512 {
+			o.Count("evaluator_input_over_512_bits")
+			if n1%8 != 0 {
+				o.Count("evaluator_input_over_512_bits_not_byte_aligned")
+			}
 		}
 		o.CountN("transport_reads", d.AB.Reads+d.BA.Reads)
 		if i < 3 {
